@@ -1027,6 +1027,16 @@ func enumerate(res *vlib.Result) {
 						res.Obs("enumerated_cases_with_placeholder", 1)
 					}
 					checkResidue(res, d, string(out), id, "")
+					// the same text as an event message carries it: no line terminator, the
+					// end of the text is the line boundary (common/event hands such text to Scrub)
+					if strings.HasSuffix(d.text, "\n") {
+						var out2 []byte
+						t2 := strings.TrimSuffix(d.text, "\n")
+						if !res.Guard("panic:Scrub", map[string]interface{}{"case": id + "/unterminated", "input": t2}, func() { out2 = safelog.Scrub([]byte(t2)) }) {
+							res.Obs("enumerated_cases_scrubbed_without_line_terminator", 1)
+							checkResidue(res, d, string(out2)+"\n", id+"/unterminated", "Scrub of text without a line terminator")
+						}
+					}
 					res.Distinct(id)
 				}
 			}
